@@ -623,6 +623,16 @@ class Emitter:
                 ins += clause_block('decreases', dec or [], fnid, 'ldec%d' % k, indent='        ')
                 edits.append((br, ins + '    '))
                 used.add(k)
+        # structure guard: the contract was written for a body with exactly these loops and nested functions; a loop
+        # or a nested function the contract does not know is a changed structure (e.g. statements folded into a loop,
+        # a helper extracted) - undecided (exit 2), not a reason to report the postcondition as violated
+        if contract.n_clauses() > 0 or contract.proof or contract.proof_begin:
+            for k in range(1, len(own_loops) + 1):
+                if not (contract.invariants.get(k) or contract.loopdec.get(k) or contract.loopensures.get(k) or k in contract.loopiter or k in contract.loopproof):
+                    raise ExtractError('%s: loop %d of the body has no invariant in the contract (the structure of the function changed; anchor lost)' % (fnid, k))
+            for (_a, _b, nm) in nested_spans:
+                if nm not in contract.nested:
+                    raise ExtractError('%s: nested fn %s has no contract (the structure of the function changed; anchor lost)' % (fnid, nm))
         for k in list(contract.invariants) + list(contract.loopdec) + list(contract.loopiter) + list(contract.loopproof):
             if k > len(own_loops):
                 raise ExtractError('%s: contract names loop %d but the function has %d loops (anchor lost)' % (fnid, k, len(own_loops)))
